@@ -51,6 +51,8 @@ class C03(Property):
         'Reaction._init_stoich (sorting of plain dicts) and Reaction.keys() order (a Python set): not modelled, compared as mappings',
         'results depend only on the current state of the objects (no stale caches after param re-assignment, in-place replacement, '
         'permutation, sort_substances_inplace): the model is a pure function, the real code is tied by history correspondence / oracle only',
+        'the text level of Reaction.from_string (splitting on " + ", "->", ";", parentheses, `n * X`) is C12 s model; here only the multiset '
+        'semantics of the written terms is modelled (mergeTerms, theorem written_terms_spec) and tied by the from_string correspondence',
         'the backend= argument (math / numpy / sympy / chempy.units.Backend()) does not change the value, also for Python ints beyond 2**63: '
         'correspondence and oracle only (the model has no backend)',
         'get_odesys(rsys, cstr=True) really builds the default feed map over all substances and hands it to rates(): theorem '
@@ -68,7 +70,8 @@ class C03(Property):
                ('chempy/reactionsystem.py', 'ReactionSystem.rates'), ('chempy/reactionsystem.py', 'ReactionSystem._stoichs'),
                ('chempy/reactionsystem.py', 'ReactionSystem.as_substance_index'),
                ('chempy/kinetics/ode.py', 'law_of_mass_action_rates'), ('chempy/kinetics/ode.py', 'dCdt_list'),
-               ('chempy/util/stoich.py', 'get_coeff_mtx'))
+               ('chempy/util/stoich.py', 'get_coeff_mtx'),
+               ('chempy/util/parsing.py', '_parse_multiplicity'), ('chempy/util/parsing.py', 'to_reaction'))
 
     # ---------------------------------------------------------------------------------------
     def generate(self, rng, n, tier):
@@ -83,6 +86,9 @@ class C03(Property):
                 continue
             if i % 25 == 7:
                 cases.append(self._odesys_cstr(rng, tier))
+                continue
+            if i % 12 == 2:
+                cases.append(self._from_string(rng, tier))
                 continue
             if r < 0.18 and rxns:
                 c = {'op': 'rxn_rate', 'rxn': rng.choice(rxns), 'vars': sysd['vars'], 'num': num,
@@ -132,6 +138,16 @@ class C03(Property):
     @staticmethod
     def _backend(rng):
         return rng.choice([None, None, 'math', 'numpy', 'sympy', 'units'])
+
+    def _from_string(self, rng, tier):
+        """a reaction entered as TEXT (Reaction.from_string / ReactionSystem.from_string) with repeated terms on a side"""
+        sysd = kg.rand_system(rng, tier, num=rng.choice(['int', 'Fraction']), smax=5, rmax=2)
+        subst = sysd['subst']
+        spec = kg.rand_reaction(rng, subst, 'int', 3, inactive_p=0.6)
+        spec['param'] = rng.randint(1, 9)
+        terms, line = kg.written_reaction(rng, spec)
+        return {'op': 'from_string', 'subst': subst, 'terms': terms, 'line': line, 'vars': sysd['vars'], 'num': sysd['num'],
+                'keys': self._keys(rng, subst, allow_none=False)}
 
     def _odesys_cstr(self, rng, tier):
         """stirred-tank conditions requested through get_odesys(rsys, cstr=True) (the DEFAULT feed map), on systems whose substances
@@ -303,6 +319,8 @@ class C03(Property):
                 else:
                     self._apply_pure(state, st)
             return {'op': 'history', 'steps': msteps, 'orig': c}
+        if c['op'] == 'from_string':
+            return dict(c, op='terms_rate')
         if c['op'] == 'odesys_cstr':
             return dict(c, op='sys_rates_default_cstr', observed='odesys_cstr',
                         rxns=[kg.readback(kg.mk_reaction(s, num), s) for s in c['rxns']])
@@ -377,6 +395,13 @@ class C03(Property):
             if op == 'rxn_rate':
                 rxn = kg.mk_reaction(c['rxn'], num)
                 return _dict_line(rxn.rate(self._vars(c), kg.get_backend(c.get('backend')), substance_keys=c['keys']))
+            if op == 'terms_rate':
+                from chempy import Reaction
+                rxn = Reaction.from_string(c['line'], list(c['subst']), checks=())
+                dj = lambda d: json.dumps([[k, int(v)] for k, v in d.items()], separators=(',', ':'))
+                return ';'.join([dj(rxn.reac), dj(rxn.prod), dj(rxn.inact_reac), dj(rxn.inact_prod),
+                                 show_int_list(rxn.net_stoich(c['keys'])),
+                                 _dict_line(rxn.rate(self._vars(c), substance_keys=c['keys']))])
             if op == 'sys_rates_default_cstr':
                 rsys, odesys, extra = self._odesys_cstr_run(c)
                 fr, fc = extra['cstr_fr_fc']
@@ -393,6 +418,13 @@ class C03(Property):
             return exc_name(e)
 
     def same(self, c, io, mo):
+        if c['op'] == 'terms_rate':
+            a, b = io.split(';'), mo.split(';')
+            if len(a) != 6 or len(b) != 6:
+                return io == mo
+            # chempy sorts the plain dicts it parsed: the four dictionaries are compared as mappings, the rest literally
+            asmap = lambda x: sorted(map(tuple, json.loads(x)))
+            return all(asmap(x) == asmap(y) for x, y in zip(a[:4], b[:4])) and a[4:] == b[4:]
         if c['op'] == 'history':
             a, b = io.split(' | '), mo.split(' | ')
             return len(a) == len(b) == len(c['steps']) and all(self.same(m, x, y) for m, x, y in zip(c['steps'], a, b))
@@ -417,6 +449,32 @@ class C03(Property):
             return self._oracle_history(c)
         if op == 'odesys_cstr':
             return self._oracle_odesys_cstr(c)
+        if op == 'from_string':
+            return self._oracle_from_string(c)
+        return None
+
+    def _oracle_from_string(self, c):
+        """rates = net * k * prod(c^nu) with net and nu counted over the MULTISET of written terms"""
+        from chempy import Reaction, ReactionSystem
+        t = c['terms']
+        vars_ = self._vars(c)
+        conc = {k: kg.to_frac(v) for k, v in vars_.items()}
+        rate = kg.frac(t['param'])
+        for n, k in t['reac']:
+            rate *= conc[k] ** n
+        want = {k: kg.terms_net(t, k) * rate for k in c['subst']}
+        try:
+            rxn = Reaction.from_string(c['line'], list(c['subst']), checks=())
+            got = {k: kg.to_frac(v) for k, v in rxn.rate(vars_, substance_keys=c['subst']).items()}
+            rsys = ReactionSystem.from_string(c['line'], list(c['subst']), rxn_parse_kwargs={'checks': ()}, checks=(),
+                                              substance_factory=lambda k: __import__('chempy').Substance(k))
+            got2 = {k: kg.to_frac(v) for k, v in rsys.rates(vars_, substance_keys=c['subst']).items()}
+        except Exception as e:
+            return 'from_string(%r) raised %s: %s' % (c['line'], exc_name(e), str(e)[:100])
+        for name, g in (('Reaction.from_string(...).rate', got), ('ReactionSystem.from_string(...).rates', got2)):
+            if g != want:
+                k = next(k for k in c['subst'] if g.get(k) != want[k])
+                return '%s for %r: d[%s]/dt = %s, the written terms give %s * %s' % (name, c['line'], k, g.get(k), kg.terms_net(t, k), rate)
         return None
 
     def _oracle_odesys_cstr(self, c):
@@ -648,6 +706,11 @@ class C03(Property):
             miss = bool(self._needed_missing(c['rxns'], dict(map(tuple, c['vars'])), c['cstr']))
             return 'sys_rates:%s%s:%s%s:nr%s%s' % (c['num'], ':be=' + c['backend'] if c.get('backend') else '', 'keys=None' if c['keys'] is None else 'keys', ':cstr' if c['cstr'] else '',
                                                  min(len(c['rxns']), 4), ':missing-var' if miss else '')
+        if op == 'from_string':
+            t = c['terms']
+            rep = any(len([1 for n, k in t[p] if k == kk]) > 1 for p in t if p != 'param' for _, kk in t[p])
+            both = any(k in [x[1] for x in t['inact_reac']] for _, k in t['reac'])
+            return 'from_string:%s%s' % ('repeated' if rep else 'single', ':active+inactive' if both else '')
         if op == 'odesys_cstr':
             return 'odesys_cstr:' + ('solid/gas' if any(c['phases']) else 'one-phase')
         if op == 'rxn_rate':
@@ -659,7 +722,7 @@ class C03(Property):
         return str(op)
 
     def nontrivial(self, c):
-        return bool(c.get('rxns') or c.get('rxn') or c.get('stoichs'))
+        return bool(c.get('rxns') or c.get('rxn') or c.get('stoichs') or c.get('terms'))
 
 
 PROPERTY = C03()
